@@ -232,16 +232,15 @@ std::ostream& instance_t::print_parameters(std::ostream& os) const
 
 std::ostream& instance_t::print_arguments(std::ostream& os) const
 {
-    auto b = std::begin(parameters), e = std::end(parameters);
-    if (b != e) {
-        auto itr = mapping.find(*b);
-        assert(itr != std::end(mapping));
+    auto first = true;
+    for (const auto& param : parameters) {
+        auto itr = mapping.find(param);
+        if (itr == std::end(mapping))
+            continue;  // an unbound parameter of a partial instance has no argument
+        if (!first)
+            os << ", ";
+        first = false;
         itr->second.print(os);
-        while (++b != e) {
-            itr = mapping.find(*b);
-            assert(itr != std::end(mapping));
-            itr->second.print(os << ", ");
-        }
     }
     return os;
 }
